@@ -210,6 +210,20 @@ def api_level(ctx, n):
         c = pc.case("p%d" % i, ("text", "origins"))
         cases.append(c)
         progs[c.id] = (files, texts, pc)
+    # files that begin with a byte order mark (top file, included file, a macro defined in such a file): the mark is
+    # three bytes of the file like any others, every later offset counts them
+    P = ppgen
+    bom_progs = [
+        [P.File("top.sv", [P.Tok("\ufeff"), P.Tok("a"), P.Ws("\n"), P.Include("b.svh"), P.Ws("\n"), P.Usage("M"), P.Ws(" "), P.Tok(";"), P.Ws("\n")]),
+         P.File("b.svh", [P.Tok("\ufeff"), P.Tok("q"), P.Ws("\n"), P.Define("M", None, "body + 1"), P.Ws("\n")])],
+        [P.File("top.sv", [P.Tok("\ufeff"), P.Define("K", None, "k1"), P.Ws("\n"), P.Cmt("// c"), P.Ws("\n"), P.Usage("K"), P.Ws(" "), P.Tok("z"), P.Ws("\n")])],
+    ]
+    for j, files in enumerate(bom_progs):
+        texts = ppgen.render(files)
+        pc = ppx.PC(texts, meta=files)
+        c = pc.case("bom%d" % j, ("text", "origins"))
+        cases.append(c)
+        progs[c.id] = (files, texts, pc)
     impl = run_harness("api", cases, "c03api")
     bad = None
     for cid, (files, texts, pc) in progs.items():
@@ -230,6 +244,9 @@ def api_level(ctx, n):
             ctx.count("api_ref_error")
             continue
         why = api_oracle(texts, ref.out, text, org)
+        if why == "text" and cid.startswith("bom") and bad is None:
+            bad = (cid, "the output of a file that begins with a byte order mark is not the text of the file (bytes dropped or moved, so every origin is off)", texts, pc)
+            continue
         if why == "text":
             ctx.count("api_text_differs_from_reference")
             continue
